@@ -1,0 +1,14 @@
+//go:build verif
+
+package internals
+
+// VerifSink receives verification events when the library is built with -tags verif.
+// It is nil unless a verification harness installs it; the library never reads anything back.
+var VerifSink func(kind string, a string, b string, obj any)
+
+// VerifEmit reports one event (after the state change it describes) to the installed sink.
+func VerifEmit(kind string, a string, b string, obj any) {
+	if s := VerifSink; s != nil {
+		s(kind, a, b, obj)
+	}
+}
